@@ -8,3 +8,4 @@ pub mod sna;
 mod memory;
 mod audio;
 mod loaders;
+mod screen;
